@@ -687,6 +687,12 @@ class FuncContent:
                         self.command[key_pos],
                         self.tokenizer,
                     )
+                if self.is_execute and not __command:
+                    raise JMCSyntaxException(
+                        "Lazy function without any command cannot be used with execute.",
+                        self.command[key_pos],
+                        self.tokenizer,
+                    )
                 append_commands(self.__commands, __command)
                 return SKIP_TO_NEXT_LINE
 
@@ -786,6 +792,12 @@ class FuncContent:
             if self.is_execute and "\n" in __command:
                 raise JMCSyntaxException(
                     "Lazy function with multiple commands cannot be used with execute.",
+                    self.command[key_pos],
+                    self.tokenizer,
+                )
+            if self.is_execute and not __command:
+                raise JMCSyntaxException(
+                    "Lazy function without any command cannot be used with execute.",
                     self.command[key_pos],
                     self.tokenizer,
                 )
